@@ -22,7 +22,9 @@ import (
 //	branch2     a union default taken from the SECOND branch (true / 2 / ["x","y"])
 //	struct      struct default giving only SOME members ("partial override")
 //	structfull  struct default giving every member
-//	zero        a default equal to the type's zero value (false, 0, 0.0, "")
+//	zero        a default equal to the type's zero value (false, 0, 0.0, ""); elist/emap/estruct: [], {}, {}
+//	big:<lit>   a numeric default at a boundary (2^53+1, MaxInt64, MinInt64+1, MaxUint64, 1e21, 2^24+1);
+//	            constants use gschema's const flavour "num:<lit>", enum members its enum flavour "big"
 //	nest1/nest2 partial struct overrides nested over three levels (Root.f: M | *{t}, M.n: L | *{l, c}),
 //	            in both declaration orders of the outer and the middle object
 //
@@ -92,10 +94,15 @@ func structDefault(t Term, full bool) (any, bool) {
 
 func installHooks() {
 	gschema.DefaultHook = func(s Schema, t Term) (any, bool) {
+		if strings.HasPrefix(t.Default, "big:") { // a boundary literal chosen by the schema
+			return num(strings.TrimPrefix(t.Default, "big:")), true
+		}
 		switch t.Default {
 		case "scalar", "refand":
 			if t.K == "ref" {
 				switch refTarget(t) {
+				case "NB":
+					return num(gschema.BigEnumMembers[1]), true
 				case "N":
 					return num("2"), true
 				case "E":
@@ -125,6 +132,10 @@ func installHooks() {
 			return structDefault(t, false)
 		case "structfull":
 			return structDefault(t, true)
+		case "emap":
+			return map[string]any{}, true
+		case "estruct":
+			return map[string]any{}, true
 		case "zero":
 			if t.K == "scalar" {
 				switch t.A {
@@ -184,15 +195,29 @@ func cueLit(v any) string {
 func def(t Term, flavour string) Term { t.Default = flavour; return t }
 func con(t Term) Term                 { t.Constr = true; return t }
 
+var (
+	boundaryInts   = []string{"9007199254740993", "-9007199254740993", "9223372036854775807", "-9223372036854775807"}
+	maxUint64      = "18446744073709551615"
+	boundaryFloats = []string{"1e21", "16777217.0"}
+	boundaryName   = map[string]string{"9007199254740993": "2^53+1", "-9007199254740993": "-(2^53+1)", "9223372036854775807": "MaxInt64",
+		"-9223372036854775807": "MinInt64+1", "18446744073709551615": "MaxUint64", "1e21": "1e21", "16777217.0": "2^24+1"}
+)
+
+// NB is a named integer enum whose members are beyond 2^53.
+func objNB() Obj { return Obj{Name: "NB", T: irgen.Enum("big")} }
+
 // withObjs builds a schema from Root plus the support objects it references
 // (gschema's S, T, E, N, A, K, P and this harness's D).
 func withObjs(root Term) Schema {
 	objs := []Obj{{Name: "Root", T: root}}
-	usesD := false
+	usesD, usesNB := false, false
 	var walk func(t Term)
 	walk = func(t Term) {
 		if t.K == "ref" && refTarget(t) == "D" {
 			usesD = true
+		}
+		if t.K == "ref" && refTarget(t) == "NB" {
+			usesNB = true
 		}
 		for _, s := range t.Sub {
 			walk(s)
@@ -201,6 +226,9 @@ func withObjs(root Term) Schema {
 	walk(root)
 	if usesD {
 		objs = append(objs, objD())
+	}
+	if usesNB {
+		objs = append(objs, objNB())
 	}
 	return gschema.WithSupport(objs...)
 }
@@ -230,13 +258,27 @@ func declared(thorough bool) []Term {
 		irgen.Const("str"), irgen.Const("int"), irgen.Const("bool"), irgen.Const("float"), ref("K"), irgen.ConstRef(gschema.Pkg + ".E"),
 		// a struct whose own fields carry defaults / constants, reached through a reference
 		ref("D"), ref("S"),
+		// zero / empty defaults of every value type: the declared value coincides with what an
+		// uninitialised field holds, so "dropped", "nil instead of empty" and "absent" show here only
+		def(S("bool"), "zero"), def(S("int64"), "zero"), def(S("float64"), "zero"), def(S("string"), "zero"),
+		def(irgen.Array(S("string")), "elist"), def(irgen.Array(S("int64")), "elist"), def(irgen.Map(S("string")), "emap"),
+		def(irgen.Struct1("s", false, S("string")), "estruct"), def(ref("P"), "estruct"),
 	}
+	// numeric boundaries: integers a float64 cannot hold, the int64/uint64 bounds, floats
+	// beyond float32 precision / written with an exponent — as constants, as defaults, as enum members
+	for _, lit := range boundaryInts {
+		out = append(out, irgen.Const("num:"+lit), def(S("int64"), "big:"+lit))
+	}
+	out = append(out, irgen.Const("num:"+maxUint64), def(S("uint64"), "big:"+maxUint64))
+	for _, lit := range boundaryFloats {
+		out = append(out, irgen.Const("num:"+lit), def(S("float64"), "big:"+lit))
+	}
+	out = append(out, def(irgen.Enum("big"), "scalar"), def(ref("NB"), "refand"))
 	if thorough {
 		out = append(out,
-			def(S("bool"), "zero"), def(S("int64"), "zero"), def(S("float64"), "zero"), def(S("string"), "zero"),
 			def(S("any"), "scalar"),
 			def(ref("N"), "scalar"),
-			def(irgen.Array(S("string")), "elist"), def(irgen.Map(S("string")), "map"),
+			def(irgen.Map(S("string")), "map"),
 			def(ref("D"), "structfull"), def(ref("S"), "struct"), def(ref("S"), "structfull"), def(inlineNS(), "structfull"),
 			def(irgen.Disj(S("string"), S("int64")), "scalar"), def(irgen.Disj(S("string"), irgen.Array(S("string"))), "branch2"),
 			def(discUnion(), "structfull"),
